@@ -30,6 +30,15 @@ fn main() {
             let path = args.get(2).unwrap_or_else(|| usage());
             std::process::exit(runner::replay_file(&props, Path::new(path)));
         }
+        Some("triage") => {
+            let id = args.get(2).unwrap_or_else(|| usage());
+            let n: u32 = args.get(3).and_then(|s| s.parse().ok()).unwrap_or(2000);
+            for p in &props {
+                if p.id() == id {
+                    runner::triage(p.as_ref(), seed, n);
+                }
+            }
+        }
         Some("list") => {
             for p in &props {
                 println!("{}", p.id());
